@@ -22,6 +22,9 @@ import CijProofs.Properties.C06
 import Mathlib.Topology.Order.Basic
 import Mathlib.Topology.Algebra.Order.Field
 import Mathlib.Analysis.SpecialFunctions.Exp
+import CijProofs.Lemmas.NonShearSource
+import CijProofs.Lemmas.ShearSource
+import CijProofs.Lemmas.ModeGammaSource
 
 namespace Cij.C12
 open Cij Cij.QExpr Cij.Cls Filter Topology
@@ -146,5 +149,35 @@ example : shippedQ2.evalCls Cls.expAll Cls.powSame .sub1 ≠ [] := by decide +ke
 example : Cij.AdapterGuardSource.evalGuard Generated.pressureGuard [[(9 : ℚ), 5], [8, 4]] [0, 2, 4] = some (.ok ()) := by decide +kernel
 example : Cij.AdapterGuardSource.evalGuard Generated.pressureGuard [[(9 : ℚ), 5], [8, 4]] [0, 2, 4, 6] = some (.error .valueError) := by
   decide +kernel
+
+/-! #### ties shared with other properties
+
+The statement of this property also rests on code whose translation is owned by another property's file; the theorems are restated
+here so that this property's obligations are re-checked against those files too (a change there breaks THIS check's proof as well). -/
+
+/-- `nonshear.py` as translated on this run: the model's isothermal and adiabatic values of both non-shear classes are the
+translated bodies (zero-point + thermal; isothermal + gap), for every scalar type -/
+theorem c12_nonshear_is_source {α : Type} [Cij.NonShear.Scalar α] [Add α] [Sub α] [Mul α] [Div α] [Neg α]
+    (c : Cij.NonShear.Consts α) (w : List α) (T P cv : α) (s : Cij.NonShear.VolSlice α) (a b : α) :
+    Cij.NonShear.valueAdiabaticLongAt c w T cv s =
+      Cij.NSExpr.evalBody (Cij.NSExpr.envAt c w T P cv s (Cij.NonShear.mgLong s) a b (Cij.NonShear.valueIsothermalLongAt c w T s)
+        (Cij.NonShear.isoToAdiaAt c.k c.hdk c.na T s.V cv (Cij.NonShear.mgLong s) s.freq w)) Generated.nsAdiaLong ∧
+    Cij.NonShear.valueAdiabaticOffAt c w T P cv s =
+      Cij.NSExpr.evalBody (Cij.NSExpr.envAt c w T P cv s (Cij.NonShear.mgOff s) a b (Cij.NonShear.valueIsothermalOffAt c w T P s)
+        (Cij.NonShear.isoToAdiaAt c.k c.hdk c.na T s.V cv (Cij.NonShear.mgOff s) s.freq w)) Generated.nsAdiaOff :=
+  ⟨Cij.NSExpr.valueAdiabaticLong_is_source c w T P cv s a b, Cij.NSExpr.valueAdiabaticOff_is_source c w T P cv s a b⟩
+
+/-- the arithmetic of the shear solver in `shear.py` as translated on this run: the target formula of the model is the translated one -/
+theorem c12_shear_target_is_source {α : Type} [Add α] [Sub α] [Mul α] [Div α] [NatCast α]
+    (key : Cij.Modulus) (e : Cij.Shear.Mat3 α) (eRot eOrig : α) :
+    Cij.Shear.targetModulus key e eRot eOrig =
+      Cij.ShExpr.eval (Cij.ShExpr.envOf eRot (e (Cij.Shear.idx key.i.i) (Cij.Shear.idx key.i.j)) (e (Cij.Shear.idx key.j.i) (Cij.Shear.idx key.j.j))
+        eRot eOrig ((key.multiplicity : Nat) : α)) Generated.shearTarget :=
+  Cij.ShExpr.target_is_source key e eRot eOrig
+
+/-- the glue of `cij/core/mode_gamma.py` this property's statement rests on (which member of the returned triple is γ, which
+V∂γ/∂V, the signs): every `interpolate_mode_*` function returns `(exp s, −s′, −s″)` as translated on this run -/
+theorem c12_mode_glue_is_source : ∀ e ∈ Generated.modeReturnPattern, e.2 = Cij.Interp.canonicalPattern :=
+  Cij.Interp.return_pattern_is_source
 
 end Cij.C12
